@@ -25,13 +25,21 @@ PAST_BOUND = {
     "C13": "lines of 12..25 nested decays, modes with 10..14 distinct daughters",
     "C15": "lines of 12..25 nested decays, modes with 10..14 distinct daughters; dictionaries whose equal sub-tables are one object",
     "C16": "tables of 9..30 lines with up to 15 distinct values; every sixth table printed through its CDecay conjugate",
-    "C17": "numbers past 2 pi, 180 and 360, 1e4 and 1e-7 among the spellings; options read as text=, by file name (str) and by Path",
+    "C17": "numbers past 2 pi, 180 and 360, 1e4 and 1e-7 among the spellings; options read as text=, by file name (str) and by Path; "
+           "a daughter under a twin spelling of a resonance of the file",
     "C18": "files with up to 8 sub-decay lines and up to 9 mother lines, randomly interleaved, with trailing remarks, read as text=, "
            "by file name and by Path",
 }
 
 
+# names that are spellings of each other (DESIGN.md section 7, round k)
+RELATED = {"C01", "C03", "C05", "C08", "C09", "C10", "C11", "C12", "C13", "C15", "C16"}
+
+
 def check(pid, technique, text, note, ref):
+    if pid in RELATED:
+        text += (" In part of the inputs the names are spellings of each other (extension, truncation, other letter case, one "
+                 "matching the other as a shell pattern).")
     if pid in PAST_BOUND:
         text += " Past the enumerated bound: " + PAST_BOUND[pid] + "."
     CHECKS[pid] = (technique, text, note, ref)
